@@ -48,6 +48,9 @@ from django_components.expression import DynamicFilterExpression, is_dynamic_exp
 TAG_WHITESPACE = (" ", "\t", "\n", "\r", "\f")
 TAG_FILTER = ("|", ":")
 TAG_SPREAD = ("*", "**", "...")
+# Lists and dicts nested deeper than this are rejected at parse time. Serializing / compiling / resolving the
+# parsed value is recursive, so unbounded nesting would otherwise surface as a `RecursionError`.
+MAX_NESTING_DEPTH = 100
 
 
 @dataclass
@@ -598,6 +601,8 @@ def parse_tag(text: str, parser: Optional[Parser]) -> Tuple[str, List[TagAttr]]:
                         raise TemplateSyntaxError("Spread syntax '...' cannot follow a key ('key=...attrs')")
                 # NOTE: The `...`, `**`, `*` are "taken" in `extract_spread_token()`
                 taken_n(1)  # [
+                if len(stack) > MAX_NESTING_DEPTH:
+                    raise TemplateSyntaxError(f"Lists and dicts may be nested at most {MAX_NESTING_DEPTH} levels deep")
                 struct = TagValueStruct(type="list", entries=[], spread=spread_token, meta={}, parser=parser)
                 curr_value.entries.append(struct)
                 stack.append(struct)
@@ -631,6 +636,8 @@ def parse_tag(text: str, parser: Optional[Parser]) -> Tuple[str, List[TagAttr]]:
                     else:
                         raise TemplateSyntaxError("Dictionary cannot be used as a dictionary key")
 
+                if len(stack) > MAX_NESTING_DEPTH:
+                    raise TemplateSyntaxError(f"Lists and dicts may be nested at most {MAX_NESTING_DEPTH} levels deep")
                 struct = TagValueStruct(type="dict", entries=[], spread=spread_token, meta={}, parser=parser)
                 curr_value.entries.append(struct)
                 struct.meta["expects_key"] = True
